@@ -63,6 +63,11 @@ def smtp_hop(rnd, cfg):
                 reply.code = '500'
                 reply.message = '5.5.1 no EHLO here'
 
+        def handle_mail(self, reply, sender, params):
+            if cfg.get('mail_reject'):
+                reply.code = str(cfg['mail_reject'])
+                reply.message = ('4.7.1' if cfg['mail_reject'] < 500 else '5.7.1') + ' scripted sender verdict'
+
         def handle_rcpt(self, reply, rcpt, params):
             code = 550 if 'reject5' in rcpt else 450 if 'reject4' in rcpt else 250
             edge_rcpt.append(code)
@@ -150,7 +155,11 @@ def smtp_hop(rnd, cfg):
         res['exc'] = type(e).__name__
     gevent.sleep(0.01)
     g.kill()
-    if edge_rcpt and all(c != 250 for c in edge_rcpt):
+    if cfg.get('mail_reject'):
+        res['edge_code'] = cfg['mail_reject']  # the sender was refused: that is the outcome of the whole message, whatever the
+        res['edge_per'] = []                   # edge says to the RCPT / DATA commands PIPELINING had already sent
+        res['per'] = []
+    elif edge_rcpt and all(c != 250 for c in edge_rcpt):
         res['edge_code'] = edge_rcpt[0]        # no recipient accepted: the transaction ended with the edge's RCPT replies
     ev = list(got)
     if clients:
@@ -174,9 +183,13 @@ def main():
                'big': rnd.choice([0, 0, 0, 0, 0, 300, 2500]) if quick or rnd.random() < 0.9 else 6000}
         if cfg['rcpt_reject']:
             cfg['reject'] = 0
+        cfg['mail_reject'] = rnd.choice([450, 550, 421]) if rnd.random() < 0.15 else 0
+        if cfg['mail_reject']:
+            cfg['reject'] = 0
+            cfg['rcpt_reject'] = False
         sent, ev = smtp_hop(rnd, cfg)
         stats['executions'] += 1
-        cls = 'smtp' + ('-helo' if cfg['helo_fallback'] else '') + ('-reject' if cfg['reject'] else '') + ('-rcptreject' if cfg['rcpt_reject'] else '') + ('-big' if cfg['big'] else '')
+        cls = 'smtp' + ('-helo' if cfg['helo_fallback'] else '') + ('-reject' if cfg['reject'] else '') + ('-rcptreject' if cfg['rcpt_reject'] else '') + ('-mailreject' if cfg['mail_reject'] else '') + ('-big' if cfg['big'] else '')
         f.write(json.dumps({'id': shard + n * nshards, 'cls': cls, 'cfg': {'kind': 'smtp', 'reject': cfg['reject']}, 'sent': sent, 'ev': ev},
                            separators=(',', ':')) + '\n')
         n += 1
